@@ -332,11 +332,25 @@ pub fn explore(cfg: &Config, sym: &dyn Fn(), native: Option<&dyn Fn()>) -> Repor
                     rep.closure = "skipped: more than 30000 path conditions".into();
                     rep.path_conditions.clear();
                 } else if is_new_path || assume_failed {
-                    match crate::solver::inline_path_condition(a, a.trace.len()) {
-                        Some(pc) => rep.path_conditions.push(pc),
-                        None => {
-                            rep.closure = "skipped: path conditions mention sqrt or uninterpreted terms".into();
-                            rep.path_conditions.clear();
+                    let mut pcs = vec![crate::solver::inline_path_condition(a, a.trace.len())];
+                    // an assumption that held on this run excludes the inputs that reach it and violate
+                    // it; nobody executes that region (the explorer never flips a satisfied assumption), so it
+                    // is accounted for here: prefix /\ not(assumption)
+                    for (j, ev) in a.trace.iter().enumerate() {
+                        if ev.kind == EvKind::Assume && ev.outcome && j >= bound {
+                            let mut lits: Vec<(u32, bool)> = a.trace[..j].iter().map(|e| (e.cond, e.outcome)).collect();
+                            lits.push((ev.cond, false));
+                            pcs.push(crate::solver::inline_conjunction(a, &lits));
+                        }
+                    }
+                    for pc in pcs {
+                        match pc {
+                            Some(pc) => rep.path_conditions.push(pc),
+                            None => {
+                                rep.closure = "skipped: path conditions mention sqrt or uninterpreted terms".into();
+                                rep.path_conditions.clear();
+                                break;
+                            }
                         }
                     }
                 }
